@@ -57,7 +57,7 @@ func (e *AsErr) As(t interface{}) bool {
 }
 
 type goErrs struct {
-	E1, W3, J4, WI6, JI7, E9, WS12, X14, WX15, A16 error
+	E1, W3, J4, WI6, JI7, E9, WS12, X14, WX15, A16, JJ17, JD18 error
 	C2                             *CustomErr
 	I5                             *goja.InterruptedError
 	S8                             *goja.StackOverflowError
@@ -81,8 +81,10 @@ func newGoErrs() *goErrs {
 	g.X14 = &IsErr{target: g.E1}
 	g.WX15 = fmt.Errorf("w15: %w", g.X14)
 	g.A16 = &AsErr{give: g.C2}
-	g.names = []string{"E1", "C2", "W3", "J4", "I5", "WI6", "JI7", "S8", "E9", "WS12", "X14", "WX15", "A16"}
-	g.all = []error{g.E1, g.C2, g.W3, g.J4, g.I5, g.WI6, g.JI7, g.S8, g.E9, g.WS12, g.X14, g.WX15, g.A16}
+	g.JJ17 = errors.Join(g.E1, errors.Join(g.C2, g.WI6)) // an uncatchable error two joins deep
+	g.JD18 = errors.Join(g.W3, g.W3)                      // the same identity reachable twice
+	g.names = []string{"E1", "C2", "W3", "J4", "I5", "WI6", "JI7", "S8", "E9", "WS12", "X14", "WX15", "A16", "JJ17", "JD18"}
+	g.all = []error{g.E1, g.C2, g.W3, g.J4, g.I5, g.WI6, g.JI7, g.S8, g.E9, g.WS12, g.X14, g.WX15, g.A16, g.JJ17, g.JD18}
 	return g
 }
 
@@ -214,6 +216,7 @@ const srcShims = `({
   iterableThrowingReturn: function(log, idx) { var o = {}; o[Symbol.iterator] = function() { var n = 0;
       return {next: function() { return n++ ? {done: true} : {value: 1, done: false}; },
               return: function() { log(idx, "r"); throw new Error("ret"); }}; }; return o; },
+  ctorOf: function(callee) { return function C() { callee(); }; },
   tramp: function(callee) { return function trampoline() { callee(); }; },
   vals: function(G1, G3, G4, G6, E1v, intr) {
     class MyErr extends Error {}
@@ -459,6 +462,14 @@ func (c *caseT) mkFrame(kind string, idx int, callee goja.Value) goja.Value {
 	case "GT":
 		obj := c.shim("getter", callee).(*goja.Object)
 		return r.ToValue(func(call goja.FunctionCall) goja.Value { obj.Get("x"); return goja.Undefined() })
+	case "TG": // Runtime.Try around Object.Get on an accessor whose getter is the callee; re-raise the exception
+		obj := c.shim("getter", callee).(*goja.Object)
+		return r.ToValue(func(call goja.FunctionCall) goja.Value {
+			if ex := r.Try(func() { obj.Get("x") }); ex != nil {
+				panic(ex)
+			}
+			return goja.Undefined()
+		})
 	case "FO":
 		it := c.shim("iterable", callee)
 		return r.ToValue(func(call goja.FunctionCall) goja.Value {
@@ -655,9 +666,11 @@ func runCase(line string) string {
 	// With a job frame in the chain, a Callable / exported entry goes through a JS trampoline: a native function
 	// called directly from the host runs with an empty call stack, and then the job queue drains inside the first
 	// nested Callable instead of at the entry (where jobs drain is C10's subject; the model drains at the entry).
+	// The same holds for a native frame that swallows errors: with an empty call stack the nested Callable's
+	// leaveAbrupt() clears the interrupt flag, which the model (no call-stack depth) does not describe.
 	if entry != "RS" {
 		for _, k := range kinds {
-			if k == "PR" || k == "JAW" {
+			if k == "PR" || k == "JAW" || k == "FCS" {
 				callee = c.shim("tramp", callee)
 				break
 			}
@@ -680,6 +693,12 @@ func runCase(line string) string {
 		case "CA":
 			fn, _ := goja.AssertFunction(callee)
 			_, err = fn(goja.Undefined())
+		case "CO": // AssertConstructor: the same runWrapped boundary as Callable, entered through `new`
+			ctor, ok := goja.AssertConstructor(c.shim("ctorOf", callee))
+			if !ok {
+				panic("harness: not a constructor")
+			}
+			_, err = ctor(nil)
 		case "EX":
 			var f func(int16) (goja.Value, error)
 			if e := r.ExportTo(callee, &f); e != nil {
